@@ -16,7 +16,7 @@ use crate::simkit::runner::{Property, RunCtx, RunReport, Tier};
 use crate::simkit::stream::StreamHandle;
 use crate::simkit::tape::{fnv, Src};
 use redis_sim::production::verif_hooks;
-use redis_sim::production::{ConnectionConfig, ShardConfig, ShardedActorState};
+use redis_sim::production::{ConnectionConfig, ConnectionPool, ShardConfig, ShardedActorState};
 use serde_json::json;
 
 pub struct C04;
@@ -54,7 +54,7 @@ pub fn gen_stream_cmds(src: &mut Src) -> Vec<Cmd> {
     g.expiry = g.expiry && true;
     let b = |s: &str| s.as_bytes().to_vec();
     let mut cmds: Vec<Cmd> = Vec::new();
-    let blocks = src.list(12, 7, 8, |s| s.below(8));
+    let blocks = src.list(12, 7, 8, |s| if s.chance(1, 24) { 8 } else { s.below(8) });
     for kind in blocks {
         match kind {
             0 | 1 => { // GET/SET-heavy prefix of length 1..8, exact case or lower case
@@ -72,6 +72,11 @@ pub fn gen_stream_cmds(src: &mut Src) -> Vec<Cmd> {
                 cmds.push(vec![b("MULTI")]);
                 for _ in 0..src.below(4) { let k = g.key(src); match src.below(3) { 0 => cmds.push(vec![b("INCR"), k]), 1 => { let v = g.val(src); cmds.push(vec![b("SET"), k, v]); } _ => cmds.push(vec![b("GET"), k]) } }
                 cmds.push(vec![b(if src.chance(4, 5) { "EXEC" } else { "DISCARD" })]);
+            }
+            8 => { // a value of ~9 KB read back 8-11 times in a row: more than 64 KB of replies pending at once
+                let mut v = vec![b'x'; 9000]; v.extend_from_slice(format!("{}", cmds.len()).as_bytes());
+                cmds.push(vec![b("SET"), b("big"), v]);
+                for _ in 0..(8 + src.below(4)) { cmds.push(vec![b("GET"), b("big")]); }
             }
             3 => cmds.push(vec![b("FOO"), b("a"), b("b")]),
             4 => cmds.push(vec![b("PING")]),
@@ -111,7 +116,7 @@ impl Property for C04 {
     fn components_real(&self) -> Vec<&'static str> { vec!["production::connection_optimized::OptimizedConnectionHandler::run (through hook H1), incl. batch collectors, fast path, try_execute_command, transaction state machine, encode_resp_into", "redis::RespCodec::parse, Command::from_resp_zero_copy", "production::ShardedActorState (ProductionTimeSource behind hook H2) with its shard actors"] }
     fn components_stubbed(&self) -> Vec<&'static str> { vec!["TCP socket -> SimStream (client-chosen read boundaries, optional short writes)", "ACL: default AclManager, metrics: no-op, as in a default server start", "TLS, accept loop, TTL manager task not run; the clock stands still during a run"] }
     fn assumptions(&self) -> Vec<&'static str> { vec!["SPOP is not generated (legitimately random)", "a damaged frame must be answered by at least one error reply after the replies of the earlier commands; what happens to commands sent after it in the same read is not constrained"] }
-    fn required_probes(&self) -> Vec<&'static str> { vec!["split_inside_frame", "partial_tail_frame", "stream_reaches_min_pipeline_buffer", "malformed_frame_sent"] }
+    fn required_probes(&self) -> Vec<&'static str> { vec!["split_inside_frame", "partial_tail_frame", "stream_reaches_min_pipeline_buffer", "malformed_frame_sent", "prior_connections_on_shared_pool", "reply_backlog_over_64k"] }
     fn runs(&self, tier: Tier) -> u64 { match tier { Tier::Quick => 40000, Tier::Thorough => 600000 } }
 
     fn derive(&self, tape: &[u64], rep: &RunReport, tier: Tier) -> Vec<Vec<u64>> {
@@ -146,9 +151,17 @@ impl Property for C04 {
         let shards = *src.pick(&[1usize, 4]);
         let malformed = src.chance(1, 6);
         let cmds = gen_stream_cmds(src);
+        if cmds.iter().any(|c| c.len() == 3 && c[2].len() >= 9000) { rep.probe("reply_backlog_over_64k"); }
         let dmg_kind = src.below(6);
         let dmg_at = src.idx(cmds.len() + 1);
         let short_writes = if src.chance(1, 8) { 1 + src.idx(7) } else { 0 };
+        let short_writes = if short_writes == 0 && src.chance(1, 8) { *src.pick(&[1000usize, 4096, 65536]) } else { short_writes };
+        // earlier connections of the same server: they share its buffer pool with this one. Each sends a few
+        // PINGs and then breaks off in the middle of a frame.
+        let prior = if src.chance(1, 4) { 1 + src.below(2) as usize } else { 0 };
+        let pool_size = *src.pick(&[4usize, 1, 2]);
+        if prior > 0 { rep.probe("prior_connections_on_shared_pool"); rep.fault("earlier_connection_broke_off_mid_frame"); }
+        if short_writes > 0 { rep.fault("short_socket_writes"); }
         // byte stream
         let mut bytes: Vec<u8> = Vec::new();
         let mut frame_starts: Vec<usize> = Vec::new();
@@ -205,9 +218,18 @@ impl Property for C04 {
             let state_b = new_state(shards);
             let sa = StreamHandle::new(); let sb = StreamHandle::new();
             sa.0.borrow_mut().max_write = short_writes;
+            let pool = ConnectionPool::new(16, pool_size);
+            for p in 0..prior {
+                let sp = StreamHandle::new();
+                let mut junk = Vec::new();
+                for _ in 0..=p { junk.extend_from_slice(b"*1\r\n$4\r\nPING\r\n"); }
+                junk.extend_from_slice(&b"*2\r\n$3\r\nGET\r\n$7\r\nabc"[..(12 + 7 * p).min(24)]);
+                sp.deliver(&junk); sp.close();
+                verif_hooks::connection_on_pool(sp.server_end(), state_a.clone(), cfg2.clone(), &pool).await;
+            }
             let mut sched = Sched::new();
             sched.idle_limit_ms = 30_000;
-            sched.add("handlerA", verif_hooks::connection(sa.server_end(), state_a.clone(), cfg2.clone()));
+            sched.add("handlerA", verif_hooks::connection_on_pool(sa.server_end(), state_a.clone(), cfg2.clone(), &pool));
             sched.add("handlerB", verif_hooks::connection(sb.server_end(), state_b.clone(), cfg2.clone()));
             let sa2 = sa.clone();
             sched.add("clientA", async move {
